@@ -1,6 +1,7 @@
 """Engine `optdiff`: optimisation levels 1 and 2 against level 0 through the real run::run (C02)."""
 import itertools
 import os
+import sys
 
 from . import eng_exec
 from .common import WORK, Stats, Violation, pmap, shim, finish, collect
@@ -213,6 +214,66 @@ def mixed_family():
     return out
 
 
+_LABELFLOW = []
+
+
+def labelflow_family():
+    """label flow: a conditional command X that registers one of two labels on its first visit, a later command T that
+    registers the other, and a (conditional) jumper J that returns to X after the value X tests has changed, so that X
+    then jumps FORWARD to T.  Candidates are generated from small part sets and kept when the reference run (a) ends
+    within 300 commands and performs at least one forward jump, or (b) is one of every 7th of the remaining ones
+    (loops, backward-only flows).  Exercises known-label jumps in both directions inside and outside the
+    pre-executed prefix; terminating cases with fewer than 100 jumps stay entirely inside level-2 speculation."""
+    if _LABELFLOW:
+        return _LABELFLOW
+    from . import refinterp as I
+    from . import refparse as P
+    import hashlib
+    import json
+    from .common import BUILD
+    # the selection only depends on the reference model: cache it next to the build output
+    h = hashlib.md5()
+    for mod in (I, P, sys.modules[__name__]):
+        h.update(open(mod.__file__, 'rb').read())
+    cache = os.path.join(BUILD, 'cache-labelflow-%s.json' % h.hexdigest()[:12])
+    if os.path.exists(cache):
+        try:
+            _LABELFLOW.extend(json.load(open(cache)))
+            return _LABELFLOW
+        except ValueError:
+            pass
+    pres = ['형..', '형....', '혀엉.. 흣...', '형.. 형....', '형.... 형..']
+    xs = ['흑...♥?💕', '흑...💕?♥', '흑...♥!💕', '항...♥?💕']
+    mids = ['', '형. 항.', '흣...', '형.. 항.']
+    ts = ['흑...💕', '흑...♥', '항...💕']
+    posts = ['', '형....', '형..', '흣...']
+    js = ['흑...♥', '흑...💕', '흑...💘?♥', '흑...♥?💘', '흑...💘?💕', '항...♥?💘', '형...💘!♥']
+    reads = ['', '흑 항... 흑... ']
+    keep, rest = [], []
+    for rd in reads:
+        for pre in pres:
+            for x in xs:
+                for mid in mids:
+                    for t in ts:
+                        for post in posts:
+                            for j in js:
+                                text = ' '.join(w for w in (rd + pre, x, mid, t, post, j, '형. 항.') if w)
+                                end, m, steps = I.run(P.parse(text), 'ab\nc', max_steps=300, horizon=256)
+                                if end in ('end', 'exit0', 'exit1') and m.fwd_jumps > 0:
+                                    keep.append(text)
+                                else:
+                                    rest.append(text)
+    _LABELFLOW.extend(list(dict.fromkeys(keep + rest[::7])))
+    try:
+        os.makedirs(BUILD, exist_ok=True)
+        with open(cache + '.tmp%d' % os.getpid(), 'w') as f:
+            json.dump(_LABELFLOW, f, ensure_ascii=False)
+        os.replace(cache + '.tmp%d' % os.getpid(), cache)
+    except OSError:
+        pass
+    return _LABELFLOW
+
+
 def with_observers(texts, observers):
     for t in texts:
         for o in observers:
@@ -249,6 +310,9 @@ def run_c02(tier):
         tasks.append(('budget', c, ['ab\nc']))
     for c in chunks(mixed_family(), 60):
         tasks.append(('mixed', c, ['', 'ab\nc']))
+    lf = labelflow_family()
+    for c in chunks(lf, 300):
+        tasks.append(('labelflow', c, ['ab\nc'], 400))
     cur = eng_exec.curated_programs()
     cin = eng_exec.curated_inputs(2 if tier == 'quick' else 3)
     for name, text in cur:
@@ -270,7 +334,7 @@ def run_c02(tier):
                   'renumbering': {'alphabets': [S24, F12], 'programs': len(ren)},
                   'renumbering_3_high_stacks': {'alphabet': S3, 'programs': len(ren3)},
                   'bailout_programs': len(bailout_family()), 'budget_programs': len(budget_family(tier)),
-                  'mixed_programs': len(mixed_family()), 'curated_programs': len(cur), 'curated_inputs': len(cin),
+                  'mixed_programs': len(mixed_family()), 'labelflow_programs': len(lf), 'curated_programs': len(cur), 'curated_inputs': len(cin),
                   'step_budget': {'budget/mixed/curated families': B, 'other families': 400}, 'inconclusive_after_8x_budget': st.n.get('inconclusive', 0)},
         'distinct_outcomes': {'level0_endings': sorted(st.sets.get('kinds', ())),
                               'distinct_level0_outputs': len(st.sets.get('outputs', ()))},
